@@ -1,7 +1,7 @@
 """Rules over GlobalCollector::handle_commands and friends (C01, C03, C04, C06, C08, C18)."""
 import re
 
-from .core import (Prov, bool_cond_edges, callee_is, has_origin, inline_calls, origin_strs, result_switches, root_local,
+from .core import (Prov, bool_cond_edges, callee_is, has_origin, inline_calls, origin_strs, result_switches, root_local, selection_blocks,
                    sites_star)
 
 GC = "fastrace::collector::global_collector::GlobalCollector"
@@ -303,7 +303,9 @@ def rule_release_sites(ctx, c, rule, what=("classify", "sweep_guard", "sweep_exi
         stale_pushes = [b for b in fn.calls_re(r"alloc::vec::Vec::<T, A>::push$", cleanup=False)
                         if c.vec_arg_role(fn, fn.term(b)) == "stale"]
         for i, b in enumerate(stale_pushes):
-            ctx.check(fn.guarded([b], canc_false), rule, HC, fn.loc(b),
+            # a destination chosen earlier (`dst = if .. { active } else { stale }`) is guarded where it is chosen
+            pts = selection_blocks(fn, c.prov, fn.term(b)["args"][0], lambda o: c.from_role([o], "stale")) or [b]
+            ctx.check(all(fn.guarded([p], canc_false) for p in pts), rule, HC, fn.loc(b),
                       "span sets are put on the stale list only when Config.cancelable == false", "",
                       "stale push at bb%d reachable with cancelable == true" % b, extra="stale-guard%d" % i)
     if "sweep_exists" in what:
